@@ -56,6 +56,29 @@ def renderKeys (ks : List Keyring.Key) : String :=
   "ok " ++ ";".intercalate (ks.map fun k =>
     hexOfStr k.name ++ "|" ++ hexOfStr k.pk ++ "|" ++ (match k.sk with | some s => hexOfStr s | none => "none"))
 
+def bytesOfStr (s : List Char) : Bytes := Keyring.utf8 s
+
+def parsePairs (s : String) : List (List Char × Bytes) :=
+  if s == "-" then [] else
+  (s.splitOn ",").filterMap fun kv =>
+    match kv.splitOn ":" with
+    | [k, v] => (strOfHex k).map fun ks => (ks, unhex v)
+    | _ => none
+
+def cliErr : Cli.Err → String
+  | .usage => "usage" | .sameFile => "samefile" | .noInput => "noinput" | .noKeyring => "nokeyring" | .keyringRead => "keyringread"
+  | .keyringUtf8 => "keyringutf8" | .keyringParse => "keyringparse" | .keyNotFound => "keynotfound" | .pkDecode => "pkdecode"
+  | .noPrivateKey => "noprivatekey" | .noPassword => "nopassword" | .unlockFailed => "unlockfailed" | .crypto r => "crypto-" ++ r.str
+  | .badKeyArg => "badkeyarg" | .badName => "badname"
+
+def fmtCli (o : Cli.Outcome) : String :=
+  let files := if o.world.files.isEmpty then "-" else ",".intercalate (o.world.files.map fun (p, b) => hexOfStr p ++ ":" ++ hexOrDash b)
+  let sender := match o.sender with
+    | some (.inl n) => "name:" ++ hexOfStr n
+    | some (.inr e) => "unknown:" ++ hexOfStr e
+    | none => "-"
+  s!"exit={o.exit} err={(o.err.map cliErr).getD "-"} stdout={hexOrDash o.stdout} sender={sender} files={files}"
+
 /-- scrypt results for (password, salt) pairs seen so far -/
 abbrev KdfCache := IO.Ref (List ((Bytes × Bytes) × Bytes))
 
@@ -236,6 +259,15 @@ def handle (kc : KdfCache) (line : String) : IO String := do
     match Noise.readMessage P (h.take 4) (unhex r) (unhex rpk) ((h.drop 4).take 128) with
     | .error e => pure s!"err {noiseErr e}"
     | .ok (pl, spk, hh) => pure s!"ok {hexOrDash pl} {hex spk} {hex hh} {hex (P.hkdfFile pl hh)}"
+  | ["cli_run", files, env, stdin, ra, rb, argv] =>
+    let w : Cli.World := { files := parsePairs files,
+                           env := (parsePairs env).filterMap fun (k, v) => (String.fromUTF8? (ByteArray.mk v.toArray)).map fun s => (k, s.toList),
+                           stdin := unhex stdin }
+    let args := if argv == "-" then [] else (argv.splitOn ",").filterMap fun a => if a == "" then some [] else strOfHex a
+    pure (fmtCli (Cli.main P { a := unhex ra, b := unhex rb } w args))
+  | ["cli_parse", argv] =>
+    let args := if argv == "-" then [] else (argv.splitOn ",").filterMap fun a => if a == "" then some [] else strOfHex a
+    pure ("ok " ++ (repr (Cli.parseArgv args)).pretty 100000)
   | ["hkdf_file", pk, h] => pure ("ok " ++ hex (P.hkdfFile (unhex pk) (unhex h)))
   | ["b64enc", d] => pure ("ok " ++ hexOrDash (B64.encode (unhex d)))
   | ["b64dec", s] => pure (fmtOpt (B64.decode (unhex s)))
